@@ -437,6 +437,8 @@ def analyse_copy(ctx: Any, prog: Program, modname: str, clsname: str, meth: str,
     # some legitimate values by the constructor default
     params_ = {a.arg for a in fn.args.args + fn.args.kwonlyargs}            # type: ignore[attr-defined]
     for f, srcs in flows.items():
+        if f in SHARED_OK:
+            continue            # the id and the parent map are the documented differences of a copy
         for e, _ in srcs:
             exprs_ = [e] + ([v for v in ca.local_defs.get(e.id, [])] if isinstance(e, ast.Name) else [])
             for ex_ in exprs_:
